@@ -365,3 +365,33 @@ def canary_size(u: U):
     u.loop("multipart:MultipartWriter.size", 0, unroll=True, bound=3)
     o = u.call(f, mw)
     u.check("C19.canary", o.ok and o.value == p.size + 2 * blen(SBytes.of(fields(mw)["_boundary"])) + 12, "false")
+
+
+@unit("C19", "reader.chunk_from_length", functions=[f"{MP}:BodyPartReader._read_chunk_from_length"])
+def reader_chunk_len(u: U):
+    """_read_chunk_from_length: never asks for more than the declared length still owes, and a stream that has ended
+    ends the part - otherwise read()/release() would spin on empty reads of a truncated body"""
+    length = u.int("content_length", 1)
+    done = u.int("read_bytes", 0)
+    u.assume(done < length)
+    size = u.int("size", 1)
+    asked = []
+    eof = u.bool("stream.at_eof")
+
+    class _Content:
+        def read(self, n):
+            asked.append(n)
+            return SAwait(result=lambda: u.bytes("read"), name="content.read")
+
+        def at_eof(self):
+            return eof
+
+    r = u.obj("BodyPartReader", {"_length": length, "_read_bytes": done, "_content": _Content(), "_at_eof": False}, {}, shared=False)
+    f = u.load(MP, "BodyPartReader._read_chunk_from_length")
+    out = u.call(f, r, size)
+    u.check("C19.length.total", out.ok, repr(out))
+    if out.ok:
+        u.check("C19.length.asks_at_most_what_is_owed", len(asked) == 1 and And(asked[0] <= size, asked[0] <= length - done, asked[0] >= 1),
+                "one read of min(size, bytes still owed by Content-Length)")
+        u.check("C19.length.eof_ends_part", Implies(eof, fields(r)["_at_eof"] is True) if is_sym(eof) else (not eof or fields(r)["_at_eof"] is True),
+                "end of stream ends the part (a truncated body terminates with an error instead of looping)")
